@@ -339,7 +339,7 @@ Definition sxhash_m (x : obj) : option N := hsum x.      (* & 0x7fffffffffffffff
 Inductive gokey :=
 | KNil | KTru | KFix (z : Z) | KFlt (k : fkind) (m e : Z) | KChr (c : N) | KStr (s : list N) | KSym (s : list N)
 | KPtr (kind : N) (word : N)       (* *Bignum 0, *Ratio 1, *Vector 2: pointer identity *)
-| KUnhashable.                     (* slip.List: runtime panic "hash of unhashable type" *)
+| KUnhashable.                     (* slip.List: not comparable in Go; HashTable.Key signals a type-error (repair C16-4) *)
 Definition gokey_of (r : ref) : gokey :=
   match r_obj r with
   | Nil => KNil | Tru => KTru | Fix z => KFix z | Flt k m e => KFlt k m e | Chr c => KChr c
@@ -373,7 +373,8 @@ Inductive hobs :=
 | OBool (b : bool)
 | ONum (n : Z)
 | OEntries (es : list (nat * Z))   (* (smallest pool index of a key equal to the stored key, value), as a set *)
-| OFault                     (* host fault: unhashable key *)
+| OTypeErr                   (* a type-error is signalled: the key is not hashable (HashTable.Key, repair C16-4) *)
+| OFault                     (* host fault: only ever OBSERVED (before C16-4: unhashable key); the model never answers it *)
 | OBadKey.                   (* the case is malformed: index outside the pool *)
 
 (* table state: association list, most recent first, one entry per Go key *)
@@ -401,13 +402,13 @@ Section Table.
   Definition t_step (st : tstate) (o : hop) : tstate * hobs :=
     match o with
     | HPut i v => match key_ok i with
-                  | None => (st, OBadKey) | Some false => (st, OFault)
+                  | None => (st, OBadKey) | Some false => (st, OTypeErr)
                   | Some true => (t_put st i v, OVal v) end
     | HGet i => match key_ok i with
-                | None => (st, OBadKey) | Some false => (st, OFault)
+                | None => (st, OBadKey) | Some false => (st, OTypeErr)
                 | Some true => (st, OGet (t_find st i)) end
     | HRem i => match key_ok i with
-                | None => (st, OBadKey) | Some false => (st, OFault)
+                | None => (st, OBadKey) | Some false => (st, OTypeErr)
                 | Some true => (t_del st i, OBool (match t_find st i with Some _ => true | None => false end)) end
     | HClr => ([], OBool true)
     | HCount => (st, ONum (Z.of_nat (List.length st)))
